@@ -51,7 +51,14 @@ type FleetPlan struct {
 	NeverReady int           // this many of the created instances never become running
 	PageSize   int           // DescribeInstanceStatusPages page size (>=1)
 	StaggerMod int           // >1: instance i becomes running (i % StaggerMod) seconds later than ReadyAfter
+	ErrCode    string        // error code returned with WithErrors ("" = InsufficientInstanceCapacity)
+	LateTail   int           // the last LateTail instances of the answer become running 2 s later than the others
 }
+
+// FleetErrorCodes are error codes EC2 reports in CreateFleet answers (alongside instances when
+// another pool filled the request).
+var FleetErrorCodes = []string{"InsufficientInstanceCapacity", "InvalidFleetConfiguration", "InvalidParameterValue", "InvalidSubnetID.NotFound",
+	"UnauthorizedOperation", "MaxSpotInstanceCountExceeded", "RequestLimitExceeded", "InsufficientFreeAddressesInSubnet", "Unsupported", "InternalError"}
 
 // FleetReq is the part of a CreateFleet request that matters, recorded in the journal.
 type FleetReq struct {
@@ -484,7 +491,7 @@ func (c *ec2Client) CreateFleet(in *ec2.CreateFleetInput) (*ec2.CreateFleetOutpu
 	out := &ec2.CreateFleetOutput{FleetId: awsapi.String("fleet-sim")}
 	if count == 0 || plan.WithErrors {
 		out.Errors = []*ec2.CreateFleetError{{
-			ErrorCode:    awsapi.String("InsufficientInstanceCapacity"),
+			ErrorCode:    awsapi.String(map[bool]string{true: "InsufficientInstanceCapacity", false: plan.ErrCode}[plan.ErrCode == ""]),
 			ErrorMessage: awsapi.String("There is no capacity available that matches your request."),
 			Lifecycle:    awsapi.String(req.DefaultType),
 		}}
@@ -496,6 +503,9 @@ func (c *ec2Client) CreateFleet(in *ec2.CreateFleetInput) (*ec2.CreateFleetOutpu
 		if plan.StaggerMod > 1 {
 			// later ids first, so that a running instance can be listed before a pending one
 			inst.ReadyAt = inst.ReadyAt.Add(time.Duration((count-1-i)%int64(plan.StaggerMod)) * time.Second)
+		}
+		if plan.LateTail > 0 && i >= count-int64(plan.LateTail) {
+			inst.ReadyAt = inst.ReadyAt.Add(2 * time.Second)
 		}
 		if int(i) < plan.NeverReady {
 			inst.Never = true
